@@ -17,6 +17,7 @@ import pymbolic.mapper as mapmod
 
 from ..core import check, short
 from ..gen import expr as G
+from ..gen import scale
 from ..mon.trace import HandlerTrace
 from ..ref import normal, refsem
 
@@ -301,7 +302,9 @@ def c_preexisting(ctx, case):
 def c_once(ctx, case):
     """Evaluator computes each distinct wrapper's child exactly once per top-level call."""
     exprs, xval = case
-    for cls in (EvaluationMapper, CachedEvaluationMapper):
+    from pymbolic.mapper.evaluator import CachedFloatEvaluationMapper, FloatEvaluationMapper
+    for cls in (EvaluationMapper, CachedEvaluationMapper, FloatEvaluationMapper,
+                CachedFloatEvaluationMapper):
         for reuse in (False, True):
             calls = Counter()
 
@@ -524,6 +527,23 @@ def workload(ctx):
             sc = rng.choice([p.cse_scope.EVALUATION, p.cse_scope.EVALUATION, p.cse_scope.GLOBAL])
             ctx.case(("prewrap", normal.typed_key(u), pre, sc), True, n=0)
             ctx.run("C12.preexisting", (u, pre, sc))
+        # scale: wide sums / products whose operand SETS agree and multiplicities differ,
+        # next to a genuinely commuted copy
+        for w in scale.SMALL_WIDTHS + [100]:
+            for cls in (p.Sum, p.Product):
+                if not ctx.mine("wide"):
+                    continue
+                zs = [p.Call(p.Variable("f"), (i + 2,)) if i % 3 == 0 else p.Power(V[2], i + 2)
+                      for i in range(w - 3)]
+                a, b = V[0], V[1]
+                e1, e2 = cls((a, a, b, *zs)), cls((a, b, b, *zs))
+                e3 = cls((*reversed(zs), b, a, a))
+                exprs = [p.Product((e1, 2)) if cls is p.Sum else p.Sum((e1, 2)),
+                         p.Sum((e2, 1)) if cls is p.Sum else p.Product((e2, 3)),
+                         p.Power(e3, 2), p.Quotient(e2, 7)]
+                ctx.case(("wide", cls.__name__, w), True, n=0)
+                ctx.count("wide_lists")
+                ctx.run("C12.tag", (exprs, not ambiguous(exprs)))
         # evaluator once-only
         x, y, f = p.Variable("x"), p.Variable("y"), p.Variable("f")
         for i in range(ctx.per_shard(ctx.pick(400, 8000))):
@@ -561,6 +581,7 @@ def workload(ctx):
     ctx.floor("sharing_checked", 1000)
     ctx.floor("handler_entries_observed", 5000)
     ctx.floor("once_checked", 2000)
+    ctx.floor("wide_lists", 10)
     ctx.floor("recover:broken:exc", 100)
     ctx.floor("recover:broken:unk", 100)
     ctx.floor("recover:repaired:v", 400)
